@@ -17,6 +17,7 @@ theorem bg_frame {a : Action} (hb : a.isBackground = true) (h : step c s a = som
   case rLeave => obtain ⟨_, rfl⟩ := spec_rLeave.mp h; simp
   case rAppend => obtain ⟨v, i, _, rfl⟩ := spec_rAppend.mp h; simp
   case rPut => obtain ⟨m, _, rfl⟩ := spec_rPut.mp h; simp
+  case rRet => obtain ⟨_, rfl⟩ := spec_rRet.mp h; simp
   case wIsSet i => obtain ⟨_, rfl⟩ := (spec_wIsSet i).mp h; simp
   case wEmpty i => obtain ⟨_, rfl⟩ := (spec_wEmpty i).mp h; simp
   case wGet i => obtain ⟨m, rest, _, _, rfl⟩ := (spec_wGet i).mp h; simp
@@ -61,7 +62,16 @@ theorem closedMp_step (hi : Inv c s) (hc : ClosedMp s) {a : Action} (h : step c 
     case cGet =>
       obtain ⟨m, rest, _, _, rfl⟩ := spec_cGet.mp h
       cases m.pay <;> simp [ClosedMp]
-    case cGetT => obtain ⟨_, _, rfl⟩ := spec_cGetT.mp h; simp [ClosedMp]
+    case cGetT =>
+      obtain ⟨_, _, rfl⟩ := spec_cGetT.mp h
+      unfold afterEmpty
+      split
+      · simp [ClosedMp]
+      · split <;> simp [ClosedMp]
+    case cDeadIsSet => obtain ⟨_, rfl⟩ := spec_cDeadIsSet.mp h; split <;> simp [ClosedMp]
+    case cDeadMpIsSet => obtain ⟨_, rfl⟩ := spec_cDeadMpIsSet.mp h; split <;> simp [ClosedMp]
+    case cDeadSet => obtain ⟨_, rfl⟩ := spec_cDeadSet.mp h; simp [ClosedMp]
+    case cDeadMpSet => obtain ⟨_, rfl⟩ := spec_cDeadMpSet.mp h; simp [ClosedMp]
     case cRel => obtain ⟨m, _, _, rfl⟩ := spec_cRel.mp h; cases m.pay <;> simp [ClosedMp]
     case cPop => obtain ⟨m, y, _, _, rfl⟩ := spec_cPop.mp h; simp [ClosedMp]
     case cShutSet => obtain ⟨_, rfl⟩ := spec_cShutSet.mp h; simp [ClosedMp]
